@@ -241,7 +241,27 @@ func (p *persistentSnapshotStorage) SnapshotFile() (SnapshotFile, error) {
 	if len(dirNames) == 0 {
 		return nil, nil
 	}
-	dirName := dirNames[len(dirNames)-1]
+
+	// The most recent snapshot is the one that includes the most log entries. That is not
+	// necessarily the one that was created last: a snapshot received from the leader and a
+	// snapshot taken locally may be written at the same time, in either order.
+	var dirName string
+	var lastIncludedIndex uint64
+	for _, candidate := range dirNames {
+		candidateMetadataFile, err := os.Open(filepath.Join(candidate, metadataBase))
+		if err != nil {
+			return nil, fmt.Errorf("could not open snapshot metadata file: %w", err)
+		}
+		candidateMetadata, err := decodeMetadata(candidateMetadataFile)
+		_ = candidateMetadataFile.Close()
+		if err != nil {
+			return nil, fmt.Errorf("could not decode snapshot metadata: %w", err)
+		}
+		if dirName == "" || candidateMetadata.LastIncludedIndex >= lastIncludedIndex {
+			dirName = candidate
+			lastIncludedIndex = candidateMetadata.LastIncludedIndex
+		}
+	}
 
 	// Make the file containing the snapshot data prepared for reading.
 	dataFile, err := os.Open(filepath.Join(dirName, snapshotBase))
